@@ -226,7 +226,10 @@ func main() {
 		}
 		g.out.Line(hs...)
 		// corpus first: minimised failures found earlier
-		for _, l := range []string{"t.me", "telegram.me", "t.me:443", "tx.me?x", "telesco.pe#f", "t.me/", "/t.me/x", "T.me/x"} {
+		for _, l := range []string{"t.me", "telegram.me", "t.me:443", "tx.me?x", "telesco.pe#f", "t.me/", "/t.me/x", "T.me/x",
+			// hosts whose port part is not a port: URL.Hostname keeps everything up to the LAST colon only if digits follow
+			"//tx.me:a:_:/a\\", "https://telegram.me]:/-{t", "https://telesco.pe]:/ ", "https://telegram.dog::/-Z", "//t.me::/x", "//t.me:1:2/x",
+			"//[t.me]/x", "//[t.me]:443/x", "https://t.me:/x", "https://t.me:08/x", "//t.me:x/y"} {
 			g.emit(l, "?", "corpus")
 		}
 		full := tier == "thorough"
